@@ -124,13 +124,24 @@ func H_C10_q(shape int) {
 	vReach("end")
 }
 
-// H_C10_port: carrier 0 "sip:h:D", 1 "sip:h:D;p", 2 "sip:h:D?h", 3 "sip:u@h:D"
+// H_C10_port: carrier 0 "sip:h:D", 1 "sip:h:D;p", 2 "sip:h:D?h", 3 "sip:u@h:D",
+// 4 "sip:u:PP@h:D" (PP = two symbolic password bytes, digits included), 5 "sip:u;x:P@h:D"
 func H_C10_port(carrier, d int) {
 	dig := vBytes(d)
 	vAssume(vAllDigits(dig))
 	var buf []byte
 	if carrier == 3 {
 		buf = append([]byte("sip:u@h:"), dig...)
+	} else if carrier == 4 || carrier == 5 {
+		pw := vBytes(2)
+		vAssume(vAnd(isAlnum(pw[0]), isAlnum(pw[1])))
+		if carrier == 4 {
+			buf = append([]byte("sip:u:"), pw...)
+		} else {
+			buf = append([]byte("sip:u;x:"), pw...)
+		}
+		buf = append(buf, "@h:"...)
+		buf = append(buf, dig...)
 	} else {
 		buf = append([]byte("sip:h:"), dig...)
 	}
